@@ -2,7 +2,9 @@ package props
 
 import (
 	"bytes"
+	"context"
 	"fmt"
+	"image"
 	"os"
 	"path/filepath"
 
@@ -213,10 +215,55 @@ func c23ROMCheck(l *explore.Local, _ struct{}, c c23ROM) *explore.Fail {
 	return nil
 }
 
+// c23Cfg: the emulator is built by the real constructor, gameboy.New, with every combination of its options that
+// touches the serial path or prints (serial writer configured or not; CPU trace; LCD debug picture; display and
+// speakers attached or not); the guest writes six bytes to SB and runs on for two frames.
+type c23Cfg struct {
+	Writer, DebugCPU, DebugLCD, Video, Audio bool
+}
+
+var c23CfgBytes = []byte{'H', 'i', '!', '\n', 0x00, 0xff}
+
+func c23CfgROM() []byte {
+	var code []byte
+	for _, b := range c23CfgBytes {
+		code = append(code, 0x3e, b, 0xe0, 0x01, 0x3e, 0x81, 0xe0, 0x02)
+	}
+	code = append(code, 0x18, 0xfe)
+	return machine.Program(map[uint16][]byte{0x100: {0xc3, 0x50, 0x01}, 0x150: code})
+}
+
+func c23CfgCheck(c *Ctx) func(l *explore.Local, _ struct{}, q c23Cfg) *explore.Fail {
+	return func(l *explore.Local, _ struct{}, q c23Cfg) *explore.Fail {
+		rom := writeOnce(filepath.Join(c.Scratch, "c23-serial-bytes.gb"), c23CfgROM())
+		g := newGBCfg(rom, q.Video, q.Audio, q.Writer, q.DebugCPU, q.DebugLCD)
+		g.onFrame(func(int, *image.RGBA) bool { return false })
+		ctx := context.Background()
+		for f := 0; f < 2; f++ {
+			g.frame(ctx)
+			g.drainHash()
+		}
+		desc := fmt.Sprintf("gameboy.New with writer=%v DebugCPU=%v DebugLCD=%v video=%v audio=%v", q.Writer, q.DebugCPU, q.DebugLCD, q.Video, q.Audio)
+		if q.Writer && !bytes.Equal(g.serial.Bytes(), c23CfgBytes) {
+			return c23Mismatch(g.serial.Bytes(), c23CfgBytes, desc)
+		}
+		if sb, sc := g.m.Map.Read(0xff01), g.m.Map.Read(0xff02); sb != 0xff || sc != 0xff {
+			return explore.Failf("SB/SC do not read FF", "%s: SB=%02x SC=%02x", desc, sb, sc)
+		}
+		if pc := g.m.CPU.VGet().PC; pc < 0x150+uint16(8*len(c23CfgBytes)) || pc > 0x152+uint16(8*len(c23CfgBytes)) {
+			return explore.Failf("an SB write has an effect besides delivery", "%s: the guest is at PC=%04x instead of its final loop", desc, pc)
+		}
+		l.Eval(1)
+		l.Trans(2)
+		l.OutcomeStr(desc)
+		return nil
+	}
+}
+
 func init() {
 	register("C23", "model_checking", func(c *Ctx) {
 		if c.R != nil {
-			c.R.Rule = "(a) every sequence of up to the length bound over 17 Mapper writes (SB with 4 values, SC in {00,81,80,01,FF}, DMA start, LCD off, sound off, JOYP, DIV, IF, WRAM, FF03), with a recording writer and with no writer, with and without machine cycles in between: the transcript must equal the SB writes in order after every write, SB/SC read FF; (a2) every single value and every ordered pair of values written to SB; (b) every opcode executed with every pointer register, SP, n and nn aimed at FF00, FF01, FF02: the bytes delivered must equal the reference CPU's writes to FF01 (read-modify-write instructions write once, PUSH / LD (nn),SP hit FF01 with one of their two bytes); (c) blargg ROMs: transcript equals the SB stores decoded by a per-instruction monitor"
+			c.R.Rule = "(a) every sequence of up to the length bound over 17 Mapper writes (SB with 4 values, SC in {00,81,80,01,FF}, DMA start, LCD off, sound off, JOYP, DIV, IF, WRAM, FF03), with a recording writer and with no writer, with and without machine cycles in between: the transcript must equal the SB writes in order after every write, SB/SC read FF; (a2) every single value and every ordered pair of values written to SB; (b) every opcode executed with every pointer register, SP, n and nn aimed at FF00, FF01, FF02: the bytes delivered must equal the reference CPU's writes to FF01 (read-modify-write instructions write once, PUSH / LD (nn),SP hit FF01 with one of their two bytes); (d) the real constructor gameboy.New with all 32 combinations of {serial writer configured, DebugCPU, DebugLCD, display, speakers}: a guest writing six bytes to SB delivers exactly those to the writer, or runs on unharmed when none is configured; (c) blargg ROMs: transcript equals the SB stores decoded by a per-instruction monitor"
 			c.R.Assumptions = []string{"delivery through gameboy.New's Config.SerialWriter wiring is compared in C26"}
 		}
 		n := 4
@@ -280,6 +327,16 @@ func init() {
 		if c.Thorough() {
 			frames = 3300
 		}
+		quietStdout(func() {
+			explore.Product(c.R, "constructor-configurations", explore.PartOpt{Workers: 1, Bound: "six SB writes, two frames", Domain: "gameboy.New x serial writer configured or not x DebugCPU x DebugLCD x display attached or not x speakers attached or not (32 configurations)"},
+				func(yield func(c23Cfg) bool) {
+					for i := 0; i < 32; i++ {
+						if !yield(c23Cfg{i&1 != 0, i&2 != 0, i&4 != 0, i&8 != 0, i&16 != 0}) {
+							return
+						}
+					}
+				}, func() struct{} { return struct{}{} }, c23CfgCheck(c))
+		})
 		explore.Product(c.R, "rom-transcripts", explore.PartOpt{Bound: fmt.Sprintf("%d frames", frames), Domain: "blargg cpu_instrs (combined + 11 individual), instr_timing, mem_timing"},
 			func(yield func(c23ROM) bool) {
 				td := filepath.Join(c.Repo, "gameboy/testdata/blargg")
